@@ -220,7 +220,8 @@ class _Env:
         finally:
             if not self.loop.is_closed(): self.loop.close()
 
-    def run(self, case):
+    def run(self, case, reuse=None):
+        """reuse = (handler, Server) of an earlier attempt: the SAME Server object is opened again by the same handler"""
         dest = unhx(case["dest_hex"]).decode("utf-8", "surrogateescape")
         # the real `Servers` container keeps its identity; its instances are stubs, and — as Servers.update does —
         # `changed` is sent exactly when the set of listeners really changes between two calls
@@ -252,9 +253,13 @@ class _Env:
             def close(s): pass
 
         async def go():
-            h = self.Handler(self.tctx.master, None, W(), self.tctx.options, self.mode)
+            if reuse is not None:
+                h, srv = reuse
+            else:
+                h = self.Handler(self.tctx.master, None, W(), self.tctx.options, self.mode)
+                srv = connection.Server(address=(dest, case["dport"]), transport_protocol=case["tp"])
             h.trace = trace; h.err_after_hook = "<hook not run>"
-            srv = connection.Server(address=(dest, case["dport"]), transport_protocol=case["tp"])
+            h.err_before = srv.error
             await h.open_connection(commands.OpenConnection(srv))
             return h, srv
         real_open, real_udp = asyncio.open_connection, proxy_server.mitmproxy_rs.udp.open_udp_connection
@@ -314,10 +319,9 @@ class _RealEnv(_Env):
         finally:
             self.dispose()
 
-    def run(self, case):
+    def run(self, case, reuse=None):
         self.current = repr(case["servers"])      # the live instances are the real ones: nothing to swap in
-        real, self.ps.servers._instances = self.ps.servers._instances, self.ps.servers._instances
-        return _Env.run(self, case)
+        return _Env.run(self, case, reuse)
 
 
 _ENV = None
@@ -345,10 +349,18 @@ class Check(PropertyCheck):
                   "specs started, the rest dropped, server=False drops all); history_never_connects_to_current_own_socket proves "
                   "by induction over every history of reconfigurations and connection attempts that an attempt at a socket of the "
                   "listener set CURRENT at that point never reaches the socket primitive; run_step, new_listener_protected, "
-                  "kept_listener_protected, server_off_no_listeners. resolver_spelling_counterexample records the residual. "
+                  "kept_listener_protected, server_off_no_listeners; and over repeated OpenConnection commands on ONE Server "
+                  "object (connection.error survives on the object): attempt_blocked_whatever_prior and "
+                  "repeated_attempts_never_dial_own_socket prove that whether an attempt dials is a function of the error present "
+                  "after THIS attempt's hook, so every attempt at a current own socket is killed whatever the object carried "
+                  "before (attempt_fresh ties it to the single-attempt model). resolver_spelling_counterexample records the "
+                  "residual. "
                   "Tie: the real Proxyserver addon through the real AddonManager and ProxyConnectionHandler.open_connection on "
                   "~90 spellings x 33 listen configurations x transports x ports x connect outcome, stub-listener histories "
-                  "(per call AND as one stateful `run`), and REAL-listener histories: a Proxyserver with real sockets on "
+                  "(per call AND as one stateful `run`), 2-5 attempts on the SAME Server object through the same handler "
+                  "(reverse-DNS-to-own-listener per-query re-opens, tcp and udp, retries after failed dials, listeners changing "
+                  "in between; state blocked/open/stale and trace of every attempt predicted by the model), and REAL-listener "
+                  "histories: a Proxyserver with real sockets on "
                   "loopback reconfigured at run time through the mode/server options (real configure -> Servers.update); the "
                   "model is given only the OS' answers for instances it considers new and predicts which instances are kept, "
                   "the listener set after every reconfiguration and the outcome of every attempt.")
@@ -372,8 +384,8 @@ class Check(PropertyCheck):
             "servers); non-trivial = at least one server with an address. Histories: 2-5 server_connect / open_connection calls "
             "on ONE fresh Proxyserver instance whose listener set changes between calls (Servers.changed is sent on every real "
             "change); every call is judged by the per-call oracle and compared with the stateless model.")
-    budget = {"quick": 12000, "thorough": 250000}
-    time_budget = {"quick": 13, "thorough": 500}
+    budget = {"quick": 9000, "thorough": 250000}
+    time_budget = {"quick": 10, "thorough": 500}
     fingerprints = ["mitmproxy.addons.proxyserver:Proxyserver.server_connect", "mitmproxy.addons.proxyserver:_is_own_host",
                     "mitmproxy.addons.proxyserver:_unmap", "mitmproxy.proxy.server:ConnectionHandler.open_connection",
                     "mitmproxy.proxy.mode_servers:ProxyConnectionHandler.handle_hook",
@@ -451,6 +463,38 @@ class Check(PropertyCheck):
             elif b: del b[rng.randrange(len(b))]
         return bytes(b).decode()
 
+    def _conn_histories(self, rng, tier):
+        """2-5 OpenConnection commands on ONE Server object: systematically the own listener opened again and again
+        (reverse DNS mode pointing at its own listener: one open per query; tcp and udp, every class of spelling), a
+        foreign destination retried after a failed dial, and the listener set changing between the attempts"""
+        dns = _servers([("both", [("127.0.0.1", 53), ("::1", 53)])])
+        cfgs = [dns, _servers([("tcp", [("127.0.0.1", 8080)])]), _servers([("udp", [("0.0.0.0", 8080)])]),
+                _servers([("tcp", [("::", 8080), ("0.0.0.0", 8080)])]), _servers([("both", [("192.168.1.5", 8080)])])]
+        dests = ["127.0.0.1", "localhost", "LocalHost.", "::1", "::ffff:127.0.0.1", "0.0.0.0", "127.0.0.2", "192.168.1.5",
+                 "example.com", "127.1"]
+        for ci, servers in enumerate(cfgs):
+            port = servers[0]["addrs"][0][1]
+            for di, dest in enumerate(dests):
+                if tier != "thorough" and (ci + di) % 2 and ci: continue
+                for tp in ("tcp", "udp"):
+                    conn = {"dest_hex": hx(dest.encode()), "dport": port, "tp": tp}
+                    for oks in ([1, 1], [1, 1, 1], [0, 1, 0]):
+                        yield {"conn": conn, "attempts": [{"ok": k, "servers": servers} for k in oks]}
+                    # the listener appears / disappears between the attempts
+                    yield {"conn": conn, "attempts": [{"ok": 0, "servers": []}, {"ok": 1, "servers": servers},
+                                                      {"ok": 1, "servers": servers}, {"ok": 1, "servers": []}]}
+        n = 300 if tier != "thorough" else 6000
+        for _ in range(n):
+            servers = rng.pick(LISTEN_CONFIGS)
+            ports = sorted({p for s in servers for _, p in s["addrs"]}) or [8080]
+            conn = {"dest_hex": hx((self._random_dest(rng) if rng.chance(0.4) else rng.pick(DESTS)).encode()),
+                    "dport": rng.pick(ports), "tp": rng.pick(["tcp", "udp"])}
+            att = []
+            for _ in range(rng.randint(2, 5)):
+                if rng.chance(0.25): servers = rng.pick(LISTEN_CONFIGS)
+                att.append({"ok": rng.randint(0, 1), "servers": servers})
+            yield {"conn": conn, "attempts": att}
+
     def _real_histories(self, rng, count):
         """start -> attempt -> runtime reconfiguration (listener added / moved / dropped / server off) -> attempts at the
         new, the kept and the dropped listeners"""
@@ -480,6 +524,7 @@ class Check(PropertyCheck):
             yield {"real": steps}
 
     def generate(self, rng, tier):
+        yield from self._conn_histories(rng, tier)     # first: a run cut short by the time budget still has them
         if tier == "thorough":
             yield from self.exhaustive(tier)
         else:
@@ -528,6 +573,17 @@ class Check(PropertyCheck):
 
     # ---------------- implementation ----------------
     def impl(self, case):
+        if "conn" in case:
+            # repeated OpenConnection commands on ONE Server object handled by ONE connection handler (what the DNS layer
+            # does per query, what lazy strategies do after a failure); the listener set may change in between
+            e = env()
+            reuse, steps = None, []
+            for a in case["attempts"]:
+                sub = dict(case["conn"], ok=a["ok"], servers=a["servers"])
+                h, srv, trace = e.run(sub, reuse)
+                reuse = (h, srv)
+                steps.append(self._obs(e, h, srv, trace))
+            return {"steps": steps}
         if "real" in case:
             return self._impl_real(case)
         if "hist" in case:
@@ -574,9 +630,13 @@ class Check(PropertyCheck):
 
     def _impl_step(self, e, case):
         h, srv, trace = e.run(case)
+        return self._obs(e, h, srv, trace)
+
+    def _obs(self, e, h, srv, trace):
         err = h.err_after_hook
         if err is None: state = "open"
         elif isinstance(err, str) and err.startswith(DEST_UNKNOWN): state = "blocked"
+        elif err == h.err_before: state = "stale"          # an earlier attempt's dial error, left alone by the hook
         else: state = "other:" + str(err)
         return {"state": state, "trace": [TRACE_NAMES.get(t, t) for t in trace], "addon_errors": list(e.errors)[:2],
                 "final_error": srv.error}
@@ -587,6 +647,13 @@ class Check(PropertyCheck):
         #  for the same transport — its explicit listen address, any loopback address or name when listening on loopback
         #  or all interfaces, or the wildcard address itself; such requests fail with a destination-unknown error instead
         #  of looping."
+        if "conn" in case:
+            # same statement for every attempt: no dial to a socket that is an own listening socket at that attempt
+            fails = []
+            for i, (a, o) in enumerate(zip(case["attempts"], obs["steps"])):
+                sub = dict(case["conn"], ok=a["ok"], servers=a["servers"])
+                fails += [f"attempt {i + 1} of {len(case['attempts'])} on one Server object: {f}" for f in self.oracle(sub, o)]
+            return fails
         if "real" in case:
             # same statement, judged against the listeners that are really bound at the time of each attempt
             fails = []
@@ -626,6 +693,13 @@ class Check(PropertyCheck):
         import re
         if "real" in case:
             return None
+        if "conn" in case:
+            m = re.match(r"attempt (\d+) of \d+ on one Server object: (.*)$", failure, re.S)
+            if not m: return None
+            i = int(m.group(1)) - 1
+            if not (0 <= i < len(case["attempts"])) or i >= len(obs.get("steps", [])): return None
+            a = case["attempts"][i]
+            return self.known(dict(case["conn"], ok=a["ok"], servers=a["servers"]), obs["steps"][i], m.group(2))
         if "hist" in case:
             m = re.match(r"call (\d+) of \d+ on one Proxyserver instance: (.*)$", failure, re.S)
             if not m: return None
@@ -659,6 +733,13 @@ class Check(PropertyCheck):
             (self._case("ｌocalhost", 8080, "tcp", 1, A), opened, res_fail[0], "F-C23b"),
             ({"hist": [self._case("example.com", 443, "tcp", 1, A), w]}, {"steps": [opened, opened]},
              "call 2 of 2 on one Proxyserver instance: " + res_fail[0], "F-C23b"),
+            ({"conn": {"dest_hex": w["dest_hex"], "dport": 8080, "tp": "tcp"},
+              "attempts": [{"ok": 1, "servers": A}, {"ok": 1, "servers": A}]}, {"steps": [opened, opened]},
+             "attempt 2 of 2 on one Server object: " + res_fail[0], "F-C23b"),
+            # a re-opened object with a parseable spelling is never excused
+            ({"conn": {"dest_hex": hx(b"localhost"), "dport": 8080, "tp": "tcp"},
+              "attempts": [{"ok": 1, "servers": A}, {"ok": 1, "servers": A}]}, {"steps": [blocked, opened]},
+             "attempt 2 of 2 on one Server object: upstream tcp connection opened to own listening socket 'localhost':8080", None),
             # same input class, a different failure (other clause of the oracle)
             (w, opened, "server_connect hook failed: ['Addon error'] open", None),
             (w, dict(opened, addon_errors=["boom"]), res_fail[0], None),
@@ -683,6 +764,14 @@ class Check(PropertyCheck):
 
     # ---------------- model tie ----------------
     def model_lines(self, case):
+        if "conn" in case:
+            c = case["conn"]
+            if any(b >= 0x80 for b in unhx(c["dest_hex"])): return None
+            steps = []
+            for a in case["attempts"]:
+                srv = ";".join(_srv_field(s) for s in a["servers"]) or "none"
+                steps.append(f"{a['ok']}~{srv}")
+            return [f"conn {c['dest_hex']} {c['dport']} {c['tp']} " + " ".join(steps)]
         if "real" in case:
             # the operations carry the OS' answers (ports) observed by impl(); which instances are kept and what is
             # blocked afterwards is predicted by the model
@@ -704,10 +793,12 @@ class Check(PropertyCheck):
         return [f"sc {case['dest_hex']} {case['dport']} {case['tp']} {case['ok']} {srv}"]
 
     def model_obs(self, case, replies):
-        if "real" in case: return replies[0]
+        if "real" in case or "conn" in case: return replies[0]
         return list(replies) if "hist" in case else replies[0]   # per call: stateless guard; last line: stateful history
 
     def impl_view(self, case, obs):
+        if "conn" in case:
+            return " ".join(o["state"] + ";" + ",".join(o["trace"]) for o in obs["steps"])
         if "real" in case: return obs["expect"]
         if "hist" in case:
             per_call = [self.impl_view(st, o) for st, o in zip(case["hist"], obs["steps"])]
@@ -722,6 +813,8 @@ class Check(PropertyCheck):
         return f"{obs['state']} {'own' if denotes_own_socket(case) else 'other'} {','.join(obs['trace'])}"
 
     def classify(self, case, obs):
+        if "conn" in case:
+            return "conn:" + json.dumps(case, sort_keys=True)
         if "real" in case:
             return "real:" + json.dumps(case["real"], sort_keys=True)
         if "hist" in case:
@@ -730,6 +823,14 @@ class Check(PropertyCheck):
         return (case["dest_hex"], case["dport"], case["tp"], str(case["servers"]))
 
     def branches(self, case, obs):
+        if "conn" in case:
+            out = [f"conn:attempts{len(case['attempts'])}", "conn:" + case["conn"]["tp"]]
+            prev = None
+            for a, o in zip(case["attempts"], obs["steps"]):
+                own = denotes_own_socket(dict(case["conn"], ok=a["ok"], servers=a["servers"]))
+                out.append(f"conn:{'own' if own else 'other'}-after-{prev or 'fresh'}:{o['state']}")
+                prev = "blocked" if o["state"] == "blocked" else ("dialfail" if o["final_error"] else "ok")
+            return out
         if "real" in case:
             out = [f"real:len{len(case['real'])}"]
             for o in obs["steps"]:
@@ -750,6 +851,11 @@ class Check(PropertyCheck):
         return out
 
     def neighbours(self, case, rng):
+        if "conn" in case:
+            for a in case["attempts"]:
+                yield {"conn": case["conn"], "attempts": [a, a]}
+                yield {"conn": case["conn"], "attempts": [a, a, a]}
+            return
         if "real" in case: return
         if "hist" in case:
             for st in case["hist"]: yield st
@@ -759,6 +865,11 @@ class Check(PropertyCheck):
                 yield self._case(dest, case["dport"], tp, case["ok"], case["servers"])
 
     def shrink_candidates(self, case):
+        if "conn" in case:
+            h = case["attempts"]
+            for i in range(len(h)):
+                if len(h) > 1: yield {"conn": case["conn"], "attempts": h[:i] + h[i + 1:]}
+            return
         if "real" in case:
             h = case["real"]
             for i in range(len(h)):
